@@ -16,8 +16,11 @@ closed without a byte of response (the client sees ECONNRESET / EOF).
 The race is hit on nearly every recycling as long as connections keep coming
 in; the script prints the hit rate.
 """
+import os as _os
+_TREE_UNDER_TEST = _os.environ.get("GVERIF_REPO") or _os.getcwd()   # the checkout under test (was the auditing agent's scratch worktree)
+
 import sys
-sys.path.insert(0, "/tmp/wa_C18")
+sys.path.insert(0, _TREE_UNDER_TEST)
 
 import os
 import signal
@@ -27,7 +30,7 @@ import tempfile
 import threading
 import time
 
-HERE = "/tmp/wa_C18"
+HERE = _TREE_UNDER_TEST
 DURATION = 8.0       # seconds of load
 CLIENTS = 6
 
